@@ -140,12 +140,14 @@ theorem coproc_eq (p : Node) (cwd : String) (r : Bool) : V (.coproc p) cwd r = V
 
 /-! ### inside one simple command -/
 
-/-- the verdict of the command proper (step 3 of `_analyze_command`) -/
+/-- the verdict of the command proper (step 3 of `_analyze_command`): the words after the
+    assignment prefix, judged as a simple command -/
 def proper (ws : List Word) (cwd : String) (r : Bool) : Action :=
   let ctx := mkCmdCtx w ws
   if ctx.words.isEmpty then .allow
   else if ctx.base == "[" || ctx.base == "test" then .allow
-  else (simpleCmd w rec h (ctx.words.length + 1) ctx.words cwd r).action
+  else if ctx.baseIdx ≥ ctx.words.length then .allow
+  else (simpleCmd w rec h (ctx.words.length + 1) (ctx.words.drop ctx.baseIdx) cwd r).action
 
 /-- a simple command's verdict is the join of its substitutions (with the injection-risk
     prompt that belongs to a pure `$(…)` argument), its redirections and the command proper -/
@@ -159,7 +161,9 @@ theorem command_eq (ws : List Word) (rs : List Redir) (cwd : String) (r : Bool) 
     rw [combine_or_allow]; simp
   · split
     · simp [combine_act]
-    · simp [combine_act]
+    · split
+      · simp [combine_act]
+      · simp [combine_act]
 
 /-! ### order, repetition, nesting depth -/
 
